@@ -2,6 +2,6 @@ from props import repo_common
 
 
 def run(ctx):
-    design = repo_common.design_runs(ctx, "backup")
-    out = ctx.go_test("cmd/restic", "^TestVerif_C11$", timeout=3000)
+    design = repo_common.design_runs(ctx, "tag")
+    out = ctx.go_test("cmd/restic", "^TestVerif_C26$", timeout=3000)
     return repo_common.finish_trace(ctx, out, "model_checking", extra_cov={"design_model_runs": design})
